@@ -1,6 +1,9 @@
 package harness
 
-import "fmt"
+import (
+	"fmt"
+	"strings"
+)
 
 func init() {
 	register(&Property{
@@ -231,9 +234,11 @@ func checkC08(env *Env) []Violation {
 		if r.Ret == 0 {
 			continue
 		}
-		if n, ok := r.Extra.(int); ok && n != 0 {
-			out = append(out, vf("goroutine-left", "%d goroutine(s) started by the root scope still alive when Close returned", n))
-			break
+		if l, ok := r.Extra.(*leftAtClose); ok {
+			if w := l.stillAtWork(); len(w) > 0 {
+				out = append(out, vf("goroutine-left", "%d goroutine(s) started by the root scope had not ended when Close returned: %s", len(w), strings.Join(w, "; ")))
+				break
+			}
 		}
 	}
 	// 6. further Close calls return nil
